@@ -49,7 +49,9 @@ ASSUMPTIONS = [
 ]
 RULE = ('exhaustive: every history of length D (quick 3, thorough 4; all shorter ones are its prefixes) over the 21 operations '
         '%s from both the never-set-up and the set-up state, each root-to-leaf history ending in its own forked process; '
-        'random: histories of length 4..30 in one fresh forked child each over the same operations plus set_up with a log file, '
+        'random: histories of length 4..30 in one fresh forked child each over the same operations plus set_up with a log file '
+        '(in those histories the level of the handler named "console" is read from `logging` directly before and after every '
+        'decorated call and must be unchanged; one history in five has set_up(log_file) without a level directly followed by overrides), '
         'verbose omitted, non-convergence as the raising call, the signal passed by keyword (sift(X=x)), undocumented verbosity '
         'values ("debug", 10, "nonsense"), and the decorated variants mask_sift / ensemble_sift / '
         'complete_ensemble_sift (seeded), and calls left through KeyboardInterrupt / SystemExit raised inside the sift. '
@@ -80,7 +82,7 @@ def compare_history(start, toks, recs, baseline, r):
         return 'model trajectory has wrong length: %s' % r.raw[:200]
     disabled = False
     for i, (tok, rec) in enumerate(zip(toks, recs)):
-        lvl, err, dig, info, dbg, during = rec
+        lvl, err, dig, info, dbg, during = rec[:6]
         where = 'start=%d history=%s step %d (%s)' % (start, ','.join(toks), i, tok)
         if lvl != mlev[i]:
             return '%s: get_level() impl=%s model=%s' % (where, lvl, mlev[i])
@@ -128,7 +130,8 @@ def check_history(start, toks, recs, lvl0, baseline, free=None):
     nfree = 0              # logger operations seen so far
     comparable = free is not None
     for i, (tok, rec) in enumerate(zip(toks, recs)):
-        lvl, err, dig, info, dbg, during = rec
+        lvl, err, dig, info, dbg, during = rec[:6]
+        direct = rec[6] if len(rec) > 6 else None      # [console handler level(s) before, after]: histories that log to a file
         p = tok.split(':')
         pre = ':before-set_up' if before == -1 else ''
         if err == 'ChildDied':
@@ -149,6 +152,14 @@ def check_history(start, toks, recs, lvl0, baseline, free=None):
             if lvl != before:
                 fail('level-not-restored:%s%s' % ('returns' if err is None else 'raises', pre),
                      'step %d (%s): console level %s before the call, %s after (%s)' % (i, tok, before, lvl, _outcome(err, dig)))
+            # histories that log to a file (two handlers): the level of the CONSOLE handler itself (the handler named 'console'
+            # of the 'emd' logger, read from `logging`, not through get_level()) directly before and directly after the call -
+            # "changes the console level only for the duration of that call and restores the previous level when the call
+            # returns or raises"
+            if direct and direct[0] != direct[1]:
+                fail('console-handler-level-not-restored:%s:log-file%s' % ('returns' if err is None else 'raises', pre),
+                     'step %d (%s): level of the console handler %s directly before the call, %s directly after (%s); get_level() '
+                     'said %s before, %s after' % (i, tok, direct[0], direct[1], _outcome(err, dig), before, lvl))
             ref = baseline.get(baseline_key(tok))
             got = _outcome(err, dig)
             if ref is not None and ref != UNSTABLE and got != ref:
@@ -359,6 +370,18 @@ class HistRandom(_HistStream):
             # an override requested BEFORE set_up must leave nothing behind: a later set_up() comes up as it does without the call
             {'start': 0, 'prefix': ['c:D:r', 'su:N', 'c:O:r'], 'depth': 0, 'sig': 0},
             {'start': 0, 'prefix': ['c:C:x', 'sl:W', 'c:W:r', 'suf:N', 'c:D:r', 'su:N'], 'depth': 0, 'sig': 3},
+            # seeded change C20 r5/1 (console found by type: the file handler is a StreamHandler too, get_level() reports ITS level
+            # and the console is "restored" to 0): set_up with a log file and NO explicit level afterwards (console 20, file 0),
+            # then an override - returning, raising, interrupted; every verbosity; set_up again before each call because the first
+            # wrong restore makes both handlers equal and hides the rest
+            {'start': 0, 'prefix': ['suf:N', 'c:D:r'], 'depth': 0, 'sig': 0},
+            {'start': 0, 'prefix': ['suf:N', 'c:W:x'], 'depth': 0, 'sig': 1},
+            {'start': 1, 'prefix': ['suf:N', 'c:C:y'], 'depth': 0, 'sig': 2},
+            {'start': 1, 'prefix': ['suf:N', 'c:I:i', 'suf:N', 'c:D:q', 'suf:N', 'c:W:r:m'], 'depth': 0, 'sig': 1},
+            {'start': 0, 'prefix': ['suf:N', 'c:C:r', 'suf:N', 'c:C:x', 'suf:N', 'c:W:r', 'suf:N', 'c:W:x', 'suf:N', 'c:I:r', 'suf:N',
+                                    'c:I:x', 'suf:N', 'c:D:r', 'suf:N', 'c:D:x', 'suf:N', 'c:N:r', 'c:O:x', 'c:D:r'], 'depth': 0, 'sig': 3},
+            {'start': 0, 'prefix': ['su:W', 'suf:N', 'dis', 'c:D:r', 'en', 'suf:N', 'c:O:r', 'c:N:x', 'c:C:x', 'sl:D', 'c:W:r'],
+             'depth': 0, 'sig': 2},
         ]
 
     def generate(self, rng, tier):
@@ -370,6 +393,12 @@ class HistRandom(_HistStream):
             for _ in range(length):
                 u = rng.random()
                 toks.append(rng.choice(SLOW) if u < slow_p else rng.choice(EXTRA) if u < 0.3 else rng.choice(ALPHABET))
+            if rng.random() < 0.2:
+                # logging to a file with the console and the file handler at DIFFERENT levels (set_up(log_file=...) without a
+                # level, nothing explicit since), then an override - returning, raising or interrupted
+                for _ in range(rng.randint(1, 2)):
+                    at = rng.randint(0, len(toks))
+                    toks[at:at] = ['suf:N'] + ['c:%s:%s' % (rng.choice('CWID'), rng.choice('rrxxyiq')) for _ in range(rng.randint(1, 2))]
             yield {'start': rng.randint(0, 1), 'prefix': toks, 'depth': 0, 'sig': rng.randint(0, 5)}
 
     def tags(self, case, out):
